@@ -7,12 +7,12 @@ def run(tier):
         for ct in range(5):
             for ht in range(3):
                 cfgs.append((1 + (ct + ht) % 2, [5, 16, 20, 33, 47][ct], ct, ht, 1, 5))
-        cfgs += [(3, 40, 1, 0, 1, 5), (2, 70, 2, 2, 2, 5), (1, 0, 0, 0, 1, 0), (2, 16, 1, 1, 1, 64), (1, 3, 4, 2, 1, 60)]
+        cfgs += [(3, 40, 1, 0, 1, 5), (2, 70, 2, 2, 2, 5), (1, 0, 0, 0, 1, 0), (2, 16, 1, 1, 1, 64), (1, 3, 4, 2, 1, 60), (1, 16, 1, 0, 1, 256), (2, 5, 2, 0, 1, 300)]
     else:
         for th in (1, 2, 3):
             for n in range(0, 50, 1 if th < 3 else 7):
                 cfgs.append((th, n, n % 5, n % 3, 1, 5))
-        for sl in (0, 1, 55, 56, 63, 64, 65, 120):
+        for sl in (0, 1, 55, 56, 63, 64, 65, 120, 255, 256, 257, 300, 520):
             cfgs.append((2, 20, 1, 0, 1, sl))
         for n in range(0, 100, 5):
             cfgs.append((2, n, n % 5, n % 3, 2, 5))
